@@ -579,7 +579,7 @@ Qed.
 
 (** generic: an equation [shex1 = map_res f shex2] lifts to the runs *)
 Definition on_shapes (f : list shape -> list shape) (x : nsdict * list shape) : nsdict * list shape :=
-  (fst x, f (snd x)).
+  let '(ns, l) := x in (ns, f l).
 
 Lemma run_shapes_post fa c1 c2 thr g (f : list shape -> list shape) :
   front_agree c1 c2 ->
@@ -903,4 +903,367 @@ Proof.
   - rewrite clean_shapes_id in H by exact Hnt. rewrite clean_shapes_id by exact Hne.
     injection H as <- <-. eauto.
   - injection H as <- <-. eauto.
+Qed.
+
+(** ** H. C04: the hypotheses of D from a predicate on the input *)
+
+(** *** the tracker: where the listed classes come from, and when it succeeds *)
+Section TrackerClasses.
+  Variables (tau : str) (m : tmode) (Gall : graph).
+
+  (** every listing (instance, class) stems from a typing triple of the graph *)
+  Definition listing_ok (ie : str * list str) : Prop :=
+    forall c, In c (snd ie) ->
+      exists t o, In t Gall /\ nid (ts t) = fst ie /\ tp t = tau /\ to t = ON o /\ nid o = c.
+
+  Lemma listing_ok_add (d : insts) t o :
+    Forall listing_ok d -> In t Gall -> tp t = tau -> to t = ON o ->
+    Forall listing_ok (dupd d (nid (ts t)) [] (fun cs => cs ++ [nid o])).
+  Proof.
+    intros Hd Ht Hp Ho.
+    assert (Hnew : listing_ok (nid (ts t), [nid o])).
+    { intros c [<-|[]]. exists t, o. auto. }
+    apply Forall_dupd; [exact Hd | |].
+    - intros v _ Hv c Hc. cbn [snd fst] in *. apply in_app_or in Hc. destruct Hc as [Hc|Hc].
+      + exact (Hv c Hc).
+      + exact (Hnew c Hc).
+    - intros _. exact Hnew.
+  Qed.
+
+  Lemma track_plain_classes g : forall d I,
+    (forall t, In t g -> In t Gall) -> Forall listing_ok d ->
+    track_plain tau m g d = inl I -> Forall listing_ok I.
+  Proof.
+    induction g as [|t g IH]; intros d I Hg Hd; cbn [track_plain].
+    - intros E. injection E as <-. assumption.
+    - assert (Hg' : forall t', In t' g -> In t' Gall) by (intros t' Ht'; apply Hg; right; assumption).
+      destruct (relevant tau m t) eqn:Hr; [|apply IH; assumption].
+      unfold annotate. destruct (to t) as [o|c dt] eqn:Eo; [|discriminate].
+      apply IH; [assumption|].
+      apply listing_ok_add; [assumption | apply Hg; left; reflexivity | exact (relevant_tau tau m t Hr) | exact Eo].
+  Qed.
+
+  Lemma track_cap_classes cap nt g : forall d st I,
+    (forall t, In t g -> In t Gall) -> Forall listing_ok d ->
+    track_cap tau m cap nt g d st = inl I -> Forall listing_ok I.
+  Proof.
+    induction g as [|t g IH]; intros d st I Hg Hd; cbn [track_cap].
+    - intros E. injection E as <-. assumption.
+    - assert (Hg' : forall t', In t' g -> In t' Gall) by (intros t' Ht'; apply Hg; right; assumption).
+      destruct (cap_allows tau cap st t) as [[|]|]; [| apply IH; assumption | discriminate].
+      destruct (relevant tau m t) eqn:Hr; [|apply IH; assumption].
+      destruct (to t) as [o|c dt] eqn:Eo; [|discriminate].
+      assert (Hd' : Forall listing_ok (dupd d (nid (ts t)) [] (fun cs => cs ++ [nid o]))).
+      { apply listing_ok_add; [assumption | apply Hg; left; reflexivity | exact (relevant_tau tau m t Hr) | exact Eo]. }
+      destruct nt as [n|].
+      + destruct (Nat.eqb _ n).
+        * intros E. injection E as <-. assumption.
+        * apply IH; assumption.
+      + apply IH; assumption.
+  Qed.
+End TrackerClasses.
+
+Theorem track_classes tau m cap g ins :
+  track tau m cap g = inl ins -> Forall (listing_ok tau g) ins.
+Proof.
+  unfold track. destruct (cap <=? 0)%Z.
+  - apply (track_plain_classes tau m g g); [auto | constructor].
+  - apply (track_cap_classes tau m g); [auto | constructor].
+Qed.
+
+(** typing triples have node objects *)
+Definition typing_ok (tau : str) (g : graph) : Prop :=
+  forall t, In t g -> tp t = tau -> is_node (to t) = true.
+
+Lemma relevant_tp tau m t : str_eqb (tp t) tau = false -> relevant tau m t = false.
+Proof. unfold relevant. intros ->. reflexivity. Qed.
+
+Lemma track_plain_total tau m g : forall d,
+  typing_ok tau g -> exists I, track_plain tau m g d = inl I.
+Proof.
+  induction g as [|t g IH]; intros d Hg; cbn [track_plain]; [eauto|].
+  assert (Hg' : typing_ok tau g) by (intros t' Ht'; apply Hg; right; assumption).
+  destruct (relevant tau m t) eqn:Hr; [|apply IH; assumption].
+  pose proof (Hg t (or_introl eq_refl) (relevant_tau tau m t Hr)) as Hn.
+  unfold annotate. destruct (to t) as [o|? ?]; [|discriminate]. apply IH; assumption.
+Qed.
+
+Lemma track_cap_total tau m cap nt g : forall d st,
+  typing_ok tau g -> exists I, track_cap tau m cap nt g d st = inl I.
+Proof.
+  induction g as [|t g IH]; intros d st Hg; cbn [track_cap]; [eauto|].
+  assert (Hg' : typing_ok tau g) by (intros t' Ht'; apply Hg; right; assumption).
+  unfold cap_allows. destruct (str_eqb (tp t) tau) eqn:Ep; cbn [negb].
+  - apply str_eqb_eq in Ep. pose proof (Hg t (or_introl eq_refl) Ep) as Hn.
+    destruct (to t) as [o|? ?]; [|discriminate].
+    destruct (dget (cc st) (nid o)) as [n|]; [destruct (Nat.ltb n cap)|]; cbv beta iota;
+      try (apply IH; assumption);
+      (destruct (relevant tau m t); [|apply IH; assumption];
+       destruct nt as [nt0|]; [|apply IH; assumption];
+       match goal with |- context [if ?b then inl _ else _] => destruct b end; [eauto | apply IH; assumption]).
+  - rewrite (relevant_tp tau m t Ep). apply IH; assumption.
+Qed.
+
+Theorem track_total tau m cap g : typing_ok tau g -> exists I, track tau m cap g = inl I.
+Proof.
+  intros H. unfold track. destruct (cap <=? 0)%Z; [apply track_plain_total | apply track_cap_total]; exact H.
+Qed.
+
+(** ... and conversely the tracker fails only on a typing triple with a literal object *)
+Lemma track_plain_err tau m g : forall d e,
+  track_plain tau m g d = inr e -> exists t, In t g /\ tp t = tau /\ is_node (to t) = false.
+Proof.
+  induction g as [|t g IH]; intros d e; cbn [track_plain]; [discriminate|].
+  destruct (relevant tau m t) eqn:Hr.
+  - unfold annotate. destruct (to t) as [o|? ?] eqn:Eo.
+    + intros H. destruct (IH _ _ H) as [t' [H1 H2]]. exists t'. split; [right; exact H1 | exact H2].
+    + intros _. exists t. split; [left; reflexivity|]. split; [exact (relevant_tau tau m t Hr) | rewrite Eo; reflexivity].
+  - intros H. destruct (IH _ _ H) as [t' [H1 H2]]. exists t'. split; [right; exact H1 | exact H2].
+Qed.
+
+Lemma track_err tau m cap g e :
+  track tau m cap g = inr e -> exists t, In t g /\ tp t = tau /\ is_node (to t) = false.
+Proof.
+  intros H. destruct (List.find (fun t => str_eqb (tp t) tau && negb (is_node (to t))) g) as [t|] eqn:Ef.
+  - apply find_some in Ef. destruct Ef as [Hin Hb]. apply andb_true_iff in Hb. destruct Hb as [H1 H2].
+    exists t. split; [exact Hin|]. split; [apply str_eqb_eq; exact H1 | apply negb_true_iff; exact H2].
+  - exfalso. destruct (track_total tau m cap g) as [I HI]; [|congruence].
+    intros t Hin Hp. pose proof (find_none _ _ Ef t Hin) as Hn. cbn beta in Hn.
+    rewrite Hp, str_eqb_refl in Hn. cbn in Hn. apply negb_false_iff in Hn. exact Hn.
+Qed.
+
+(** *** the keys a triple can contribute *)
+
+Definition sentinel_free (tau : str) (t : triple) : bool :=
+  no_sentinel (tp t) &&
+  match to t with
+  | OL _ dt => no_sentinel dt
+  | ON o => if str_eqb (tp t) tau then no_sentinel (nid o) && no_sentinel (nid (ts t)) else true
+  end.
+
+Lemma tk_shape_labels ns I id k : In k (shape_labels I id) -> tk ns k.
+Proof.
+  unfold shape_labels. intros H. apply in_map_iff in H. destruct H as [c [<- _]]. apply shape_name_tune.
+Qed.
+
+Lemma tk_const ns k : no_sentinel k = true -> tk ns k.
+Proof. apply tune_token_no_sentinel. Qed.
+
+Lemma contrib_tk ns dir tau I t i p k :
+  sentinel_free tau t = true -> In k (contrib dir tau I t i p) -> tk ns p /\ tk ns k.
+Proof.
+  unfold sentinel_free. intros Hs Hk. apply andb_true_iff in Hs. destruct Hs as [Hp Ho].
+  destruct dir; cbn [contrib] in Hk.
+  - destruct (str_eqb (nid (ts t)) i && str_eqb (tp t) p) eqn:E; [|destruct Hk].
+    apply andb_true_iff in E. destruct E as [_ E]. apply str_eqb_eq in E. subst p.
+    split; [apply tk_const; exact Hp|].
+    unfold keys_direct in Hk. destruct (to t) as [o|ct dt].
+    + destruct (str_eqb (tp t) tau).
+      * apply andb_true_iff in Ho. destruct Ho as [Ho _].
+        destruct Hk as [<-|Hk]; [apply tk_const; exact Ho|].
+        destruct (_ || _); [exact (tk_shape_labels ns I _ k Hk) | destruct Hk].
+      * destruct Hk as [<-|Hk]; [|exact (tk_shape_labels ns I _ k Hk)].
+        unfold elem_type. destruct (nk o); apply tk_const; reflexivity.
+    + destruct (str_eqb (tp t) tau); [destruct Hk|]. destruct Hk as [<-|[]]. apply tk_const; exact Ho.
+  - destruct (to t) as [o|ct dt]; [|destruct Hk].
+    destruct (str_eqb (nid o) i && str_eqb (tp t) p) eqn:E; [|destruct Hk].
+    apply andb_true_iff in E. destruct E as [_ E]. apply str_eqb_eq in E. subst p.
+    split; [apply tk_const; exact Hp|].
+    unfold keys_inverse in Hk. destruct (str_eqb (tp t) tau).
+    + apply andb_true_iff in Ho. destruct Ho as [_ Ho].
+      destruct Hk as [<-|Hk]; [apply tk_const; exact Ho|].
+      destruct (str_eqb _ _); [exact (tk_shape_labels ns I _ k Hk) | destruct Hk].
+    + destruct Hk as [<-|Hk].
+      * unfold elem_type. destruct (nk (ts t)); apply tk_const; reflexivity.
+      * destruct (nk (ts t)); [exact (tk_shape_labels ns I _ k Hk) | destruct Hk].
+Qed.
+
+Lemma occ_pos_tk ns dir tau I G c p k card :
+  forallb (sentinel_free tau) G = true -> (0 < occ dir tau I G c p k card)%N -> tk ns p /\ tk ns k.
+Proof.
+  intros Hg Hpos.
+  destruct (proj1 (occ_pos_iff dir tau I G c p k) (ex_intro _ card Hpos)) as (i & cs & _ & _ & Hc).
+  unfold cnt in Hc. apply sumN_pos_ex in Hc. destruct Hc as [x [Hx Hx0]].
+  apply in_map_iff in Hx. destruct Hx as [t [<- Ht]].
+  rewrite count_in_count_str in Hx0. apply count_str_pos in Hx0.
+  rewrite forallb_forall in Hg. exact (contrib_tk ns dir tau I t i p k (Hg t Ht) Hx0).
+Qed.
+
+(** *** the front succeeds and its profile is renderable *)
+
+Definition typing_okb (tau : str) (g : graph) : bool :=
+  forallb (fun t => negb (str_eqb (tp t) tau) || is_node (to t)) g.
+
+Lemma typing_okb_ok tau g : typing_okb tau g = true <-> typing_ok tau g.
+Proof.
+  unfold typing_okb, typing_ok. rewrite forallb_forall. split.
+  - intros H t Hin Hp. specialize (H t Hin). rewrite Hp, str_eqb_refl in H. exact H.
+  - intros H t Hin. destruct (str_eqb (tp t) tau) eqn:E; [|reflexivity].
+    apply str_eqb_eq in E. cbn. exact (H t Hin E).
+Qed.
+
+Theorem front_total c g :
+  typing_ok (r_tau c) g ->
+  exists ins P C ID, track (r_tau c) (tmode_of c) (r_cap c) g = inl ins /\
+                     profile (pcfg_of c) ins g = inl (P, C, ID).
+Proof.
+  intros Hty. destruct (track_total (r_tau c) (tmode_of c) (r_cap c) g Hty) as [ins Ht].
+  exists ins. destruct (profile (pcfg_of c) ins g) as [[[P C] ID]|e] eqn:Hp; [eauto|].
+  exfalso. apply profile_err in Hp. apply annotate_all_err in Hp. destruct Hp as [_ [t [Hin (_ & Hp & Hn)]]].
+  cbn [p_tau pcfg_of] in Hp. rewrite (Hty t Hin Hp) in Hn. discriminate.
+Qed.
+
+Theorem profile_entries_renderable c g ns ins P C ID :
+  forallb (sentinel_free (r_tau c)) g = true ->
+  track (r_tau c) (tmode_of c) (r_cap c) g = inl ins ->
+  profile (pcfg_of c) ins g = inl (P, C, ID) ->
+  forall ce, In ce P -> entries_ok (scfg_of c ns) ce.
+Proof.
+  intros Hfree Ht Hp ce Hce d p k ck n He.
+  destruct (track_insts_ok _ _ _ _ _ Ht) as [ND _].
+  destruct (profile_final_char (pcfg_of c) ins g P C ID ND Hp) as (_ & _ & _ & _ & _ & Hent).
+  destruct ce as [cl e]. destruct (Hent cl e Hce) as (_ & Hdir & Hinv & _).
+  destruct He as (kd & cd & H1 & H2 & H3). unfold class_pd in H1. cbn [x_inverse scfg_of snd x_ns] in *.
+  destruct d.
+  - destruct (r_inverse c) eqn:Ei; [|destruct H1].
+    destruct (Hinv Ei p kd k cd ck n H1 H2 H3) as [En Hpos]. rewrite En in Hpos.
+    exact (occ_pos_tk ns Inverse _ ins g cl p k ck Hfree Hpos).
+  - destruct (Hdir p kd k cd ck n H1 H2 H3) as [En Hpos]. rewrite En in Hpos.
+    exact (occ_pos_tk ns Direct _ ins g cl p k ck Hfree Hpos).
+Qed.
+
+(** class keys of the profile: requested targets or objects of typing triples *)
+Theorem profile_class_keys c g ins P C ID :
+  track (r_tau c) (tmode_of c) (r_cap c) g = inl ins ->
+  profile (pcfg_of c) ins g = inl (P, C, ID) ->
+  forall ce, In ce P ->
+    In (fst ce) (match r_targets c with Some l => l | None => [] end) \/
+    exists t o, In t g /\ tp t = r_tau c /\ to t = ON o /\ nid o = fst ce.
+Proof.
+  intros Ht Hp ce Hce.
+  destruct (track_insts_ok _ _ _ _ _ Ht) as [ND _].
+  destruct (profile_final_char (pcfg_of c) ins g P C ID ND Hp) as (_ & _ & (ks & Hks & _) & _).
+  assert (H : In (fst ce) (dkeys P)) by (apply in_map; exact Hce).
+  rewrite Hks in H. apply filter_In in H. destruct H as [H _].
+  unfold class_keys in H. rewrite uniq_first_first_occ in H. apply (proj1 (In_first_occ _ _)) in H.
+  unfold targets_of in H. cbn [p_targets pcfg_of] in H.
+  apply in_app_or in H. destruct H as [H|H]; [left; exact H|]. right.
+  apply in_concat in H. destruct H as [cs [Hcs Hc]]. apply in_map_iff in Hcs. destruct Hcs as [[i cs'] [<- Hie]].
+  pose proof (track_classes _ _ _ _ _ Ht) as Hall. rewrite Forall_forall in Hall.
+  destruct (Hall (i, cs') Hie (fst ce) Hc) as (t & o & H1 & _ & H3 & H4 & H5). eauto 7.
+Qed.
+
+(** *** the input predicate *)
+
+Definition options_ok (c : rcfg) : bool := r_disable_or c || negb (r_remove_empty c).
+
+Definition prefix_free (c : rcfg) : bool :=
+  match shapes_prefix (r_ns c) with Some _ => true | None => false end.
+
+(** (i) typing triples have node objects, (ii) no sentinel where a token is
+    taken from, (iii) disjunctions disabled or empty shapes kept, (iv) a
+    priority prefix is free *)
+Definition valid_input (c : rcfg) (g : graph) : bool :=
+  typing_okb (r_tau c) g && forallb (sentinel_free (r_tau c)) g && options_ok c && prefix_free c.
+
+Definition no_at (s : str) : bool := negb (prefixb (Str "@") s).
+
+(** for the text also: no class IRI (object of a typing triple, requested
+    target class) starts with "@" *)
+Definition class_iri_ok (tau : str) (t : triple) : bool :=
+  negb (str_eqb (tp t) tau) || match to t with ON o => no_at (nid o) | OL _ _ => true end.
+
+Definition valid_input_text (c : rcfg) (g : graph) : bool :=
+  valid_input c g && forallb (class_iri_ok (r_tau c)) g &&
+  forallb no_at (match r_targets c with Some l => l | None => [] end).
+
+Lemma options_ok_spec c : options_ok c = true -> r_disable_or c = true \/ r_remove_empty c = false.
+Proof.
+  unfold options_ok. intros H. apply orb_true_iff in H. destruct H as [H|H]; [left; exact H|].
+  right. apply negb_true_iff. exact H.
+Qed.
+
+Lemma prefix_free_spec c : prefix_free c = true -> exists ns, full_ns c = Some ns.
+Proof.
+  unfold prefix_free, full_ns. destruct (shapes_prefix (r_ns c)); [eauto | discriminate].
+Qed.
+
+Theorem run_total fa c thr g :
+  valid_input c g = true -> exists ns shapes, run_shapes fa c thr g = inl (ns, shapes).
+Proof.
+  unfold valid_input. intros H.
+  apply andb_true_iff in H. destruct H as [H H4]. apply andb_true_iff in H. destruct H as [H H3].
+  apply andb_true_iff in H. destruct H as [H1 H2].
+  apply typing_okb_ok in H1. destruct (prefix_free_spec c H4) as [ns Hns].
+  destruct (front_total c g H1) as (ins & P & C & ID & Ht & Hp).
+  exists ns. apply (run_total_tokens fa c thr g ns ins P C ID (options_ok_spec c H3) Hns Ht Hp).
+  intros ce Hce. apply entries_ok_tokens_ok.
+  exact (profile_entries_renderable c g ns ins P C ID H2 Ht Hp ce Hce).
+Qed.
+
+Theorem run_shexc_total fa c thr g :
+  valid_input_text c g = true -> exists text, run_shexc fa c thr g = inl text.
+Proof.
+  unfold valid_input_text, valid_input. intros H.
+  apply andb_true_iff in H. destruct H as [H H6]. apply andb_true_iff in H. destruct H as [H H5].
+  apply andb_true_iff in H. destruct H as [H H4]. apply andb_true_iff in H. destruct H as [H H3].
+  apply andb_true_iff in H. destruct H as [H1 H2].
+  apply typing_okb_ok in H1. destruct (prefix_free_spec c H4) as [ns Hns].
+  destruct (front_total c g H1) as (ins & P & C & ID & Ht & Hp).
+  apply (run_shexc_total_tokens fa c thr g ns ins P C ID (options_ok_spec c H3) Hns Ht Hp).
+  intros ce Hce. split; [exact (profile_entries_renderable c g ns ins P C ID H2 Ht Hp ce Hce)|].
+  destruct (profile_class_keys c g ins P C ID Ht Hp ce Hce) as [Hin|(t & o & Hin & Htp & Hto & Hid)].
+  - rewrite forallb_forall in H6. specialize (H6 _ Hin). apply negb_true_iff in H6. exact H6.
+  - rewrite forallb_forall in H5. specialize (H5 t Hin). unfold class_iri_ok in H5.
+    rewrite Htp, str_eqb_refl, Hto, Hid in H5. cbn in H5. apply negb_true_iff in H5. exact H5.
+Qed.
+
+(** *** errors characterised: each error outcome of the run implies that one
+    of the four conditions fails *)
+
+Lemma front_err c g e :
+  front c g = inr e -> e = REAttr /\ exists t, In t g /\ tp t = r_tau c /\ is_node (to t) = false.
+Proof.
+  unfold front. destruct (track _ _ _ g) as [ins|te] eqn:Ht.
+  - destruct (profile (pcfg_of c) ins g) as [[[P C] ID]|pe] eqn:Hp; [discriminate|].
+    apply profile_err in Hp. apply annotate_all_err in Hp.
+    destruct Hp as [-> [t [Hin (_ & Hp & Hn)]]]. intros H; injection H as <-.
+    split; [reflexivity|]. exists t. auto.
+  - intros H; injection H as <-. split; [reflexivity|]. exact (track_err _ _ _ _ _ Ht).
+Qed.
+
+Theorem run_errors_characterised fa c thr g e :
+  run_shapes fa c thr g = inr e ->
+  (e = RERandom /\ shapes_prefix (r_ns c) = None) \/
+  (e = REAttr /\ exists t, In t g /\ tp t = r_tau c /\ is_node (to t) = false) \/
+  ((exists se, e = rerr_of_s se) /\
+   (options_ok c = false \/ forallb (sentinel_free (r_tau c)) g = false)).
+Proof.
+  intros H. rewrite run_shapes_front in H.
+  destruct (full_ns c) as [ns|] eqn:Hns.
+  - right. destruct (front c g) as [[P C]|fe] eqn:Hf.
+    + right. destruct (front_inl c g P C Hf) as (ins & ID & Ht & Hp).
+      destruct (shex fa (scfg_of c ns) thr P C) as [s|se] eqn:Hs; [discriminate|]. injection H as <-.
+      split; [eauto|].
+      destruct (options_ok c) eqn:Eo; [|left; reflexivity]. right.
+      destruct (forallb (sentinel_free (r_tau c)) g) eqn:Es; [|reflexivity]. exfalso.
+      destruct (shex_total_either fa (scfg_of c ns) thr P C (options_ok_spec c Eo)) as [s' Hs'];
+        [|congruence].
+      intros ce Hce. apply entries_ok_tokens_ok.
+      exact (profile_entries_renderable c g ns ins P C ID Es Ht Hp ce Hce).
+    + left. injection H as <-. exact (front_err c g fe Hf).
+  - left. injection H as <-. split; [reflexivity|]. unfold full_ns in Hns.
+    destruct (shapes_prefix (r_ns c)); [discriminate | reflexivity].
+Qed.
+
+(** the serialiser adds one more: a token it cannot print (ValueError) *)
+Theorem run_shexc_errors_characterised fa c thr g e :
+  run_shexc fa c thr g = inr e ->
+  run_shapes fa c thr g = inr e \/
+  (e = REValue /\ exists ns shapes, run_shapes fa c thr g = inl (ns, shapes) /\
+                                     render (zcfg_of c ns) shapes = None).
+Proof.
+  unfold run_shexc. destruct (run_shapes fa c thr g) as [[ns shapes]|e0]; [|intros H; injection H as <-; left; reflexivity].
+  fold (zcfg_of c ns). destruct (render (zcfg_of c ns) shapes) eqn:Er; [discriminate|].
+  intros H; injection H as <-. right. split; [reflexivity|]. eauto.
 Qed.
